@@ -101,26 +101,30 @@ def addToSymSparse {n : Nat} (p : Pat n n cap) (mat : Vector α cap) (res : Vect
       -- strict upper
       if upper ∧ j < i then set2 res j i hj hi (at2 res j i hj hi + v) else res) res) res
 
+/-- one row of `mju_mulSymVecSparse`: `res[i] = row[diag]*vec[i]`, then for `k = diag-1 … 0` the strict lower and
+the mirrored strict upper contribution; `none` when the row is empty (the C code would read `row[-1]`) -/
+def symStep {n : Nat} (p : Pat n n cap) (mat : Vector α cap) (vec : Vector α n) (i : Nat) (hi : i < n)
+    (st : Option (Vector α n)) : Option (Vector α n) :=
+  match st with
+  | none => none
+  | some res =>
+    if hnz : 0 < p.rownnz[i] then
+      let diag := p.rownnz[i] - 1
+      -- diagonal
+      let res := res.set i (p.val mat i hi diag (by omega) * vec[i])
+      -- off-diagonals, k = diag-1 … 0
+      some (forRangeRev 0 diag (fun k _ hk (res : Vector α n) =>
+        let j := p.col i hi k (by omega)
+        have hj : j < n := p.col_lt i hi k (by omega)
+        let v := p.val mat i hi k (by omega)
+        let res := res.set i (res[i] + v * vec[j])      -- strict lower
+        res.set j (res[j] + v * vec[i])) res)           -- strict upper
+    else none
+
 /-- `mju_mulSymVecSparse(res, mat, vec, n, rownnz, rowadr, colind)`: lower-triangular storage with the diagonal
-as the last entry of every row.  `none` when a row is empty (the C code would read `row[-1]`). -/
+as the last entry of every row. -/
 def mulSymVecSparse {n : Nat} (p : Pat n n cap) (mat : Vector α cap) (vec : Vector α n) : Option (Vector α n) :=
-  Nat.fold n (fun i hi (st : Option (Vector α n)) =>
-    match st with
-    | none => none
-    | some res =>
-      if hnz : 0 < p.rownnz[i] then
-        let diag := p.rownnz[i] - 1
-        -- diagonal
-        let res := res.set i (p.val mat i hi diag (by omega) * vec[i])
-        -- off-diagonals, k = diag-1 … 0
-        some (forRangeRev 0 diag (fun k _ hk (res : Vector α n) =>
-          let j := p.col i hi k (by omega)
-          have hj : j < n := p.col_lt i hi k (by omega)
-          let v := p.val mat i hi k (by omega)
-          let res := res.set i (res[i] + v * vec[j])      -- strict lower
-          res.set j (res[j] + v * vec[i])) res)           -- strict upper
-      else none)
-    (some (Vector.replicate n (lit 0)))
+  Nat.fold n (fun i hi st => symStep p mat vec i hi st) (some (Vector.replicate n (lit 0)))
 
 /-! ### dense ↔ sparse -/
 
@@ -291,20 +295,23 @@ def transposeSparse {capT : Nat} (mat : Vector α cap) (rownnz rowadr : Vector N
 
 /-! ### `mju_combineSparseCount`, `mju_combineSparse` (engine_util_sparse.c / .h) -/
 
-/-- `mju_combineSparseCount(a_nnz, b_nnz, a_ind, b_ind)`: `a_nnz + b_nnz − #common`; the merge loop over
-positions `(a, b)` is the recursion on the remaining lengths. -/
-def commonCount {na nb : Nat} (aInd : Vector Nat na) (bInd : Vector Nat nb) : (ra rb : Nat) → ra ≤ na → rb ≤ nb → Nat
+/-- the merge loop of `mju_combineSparseCount(a_nnz, b_nnz, a_ind, b_ind)` over the first `na` / `nb` entries of
+the index arrays: number of common indices; the loop over positions `(a, b)` is the recursion on the remaining
+lengths `(ra, rb)` -/
+def commonCount {ca cb : Nat} (aInd : Vector Nat ca) (bInd : Vector Nat cb) (na nb : Nat) (hna : na ≤ ca)
+    (hnb : nb ≤ cb) : (ra rb : Nat) → ra ≤ na → rb ≤ nb → Nat
   | 0, _, _, _ => 0
-  | _, 0, _, _ => 0
+  | _ + 1, 0, _, _ => 0
   | ra + 1, rb + 1, ha, hb =>
-    let x := aInd[na - (ra + 1)]
-    let y := bInd[nb - (rb + 1)]
-    if x = y then commonCount aInd bInd ra rb (by omega) (by omega) + 1
-    else if x < y then commonCount aInd bInd ra (rb + 1) (by omega) hb
-    else commonCount aInd bInd (ra + 1) rb ha (by omega)
+    let x := aInd[na - (ra + 1)]'(by omega)
+    let y := bInd[nb - (rb + 1)]'(by omega)
+    if x = y then commonCount aInd bInd na nb hna hnb ra rb (by omega) (by omega) + 1
+    else if x < y then commonCount aInd bInd na nb hna hnb ra (rb + 1) (by omega) hb
+    else commonCount aInd bInd na nb hna hnb (ra + 1) rb ha (by omega)
 
+/-- `mju_combineSparseCount(a_nnz, b_nnz, a_ind, b_ind)`: `a_nnz + b_nnz − #common` -/
 def combineSparseCount {na nb : Nat} (aInd : Vector Nat na) (bInd : Vector Nat nb) : Nat :=
-  na + nb - commonCount aInd bInd na nb (Nat.le_refl _) (Nat.le_refl _)
+  na + nb - commonCount aInd bInd na nb (Nat.le_refl _) (Nat.le_refl _) na nb (Nat.le_refl _) (Nat.le_refl _)
 
 /-- state of the backward merge of `mju_combineSparse`: `bi+1`, `si+1`, `w+1` of the C code as naturals -/
 structure Comb (α : Type) (cap : Nat) where
@@ -360,7 +367,7 @@ def combineSparse {cap ns : Nat} (a b : α) (dstNnz : Nat) (st : Comb α cap) (s
                 d.set k (d[k]'(by omega) * a + src[k]'(by omega) * b) (by omega)) st.dst }, dstNnz)
     | none =>
       -- compute total nnz of result (mju_combineSparseCount on the first dst_nnz / src_nnz indices)
-      let common := commonCount (st.ind.take dstNnz) srcInd (min dstNnz cap) ns (by simp) (Nat.le_refl _)
+      let common := commonCount st.ind srcInd dstNnz ns hd (Nat.le_refl _) dstNnz ns (Nat.le_refl _) (Nat.le_refl _)
       let nnz := dstNnz + ns - common
       match combineGo a b src srcInd dstNnz ns nnz st with
       | none => none
